@@ -1043,8 +1043,17 @@ class ApertureStats:
         The centroid is computed as the center of mass of the unmasked
         pixels within the aperture.
         """
-        origin = np.transpose((self.bbox_xmin, self.bbox_ymin))
-        return self.cutout_centroid + origin
+        # the cutouts are the overlap of the bounding box with the data,
+        # so their origin is the lower corner of the overlap region (this
+        # differs from the bounding box for apertures clipped by the
+        # left or bottom edge of the data)
+        origin = []
+        for slices in self._overlap_slices:
+            if slices[0] is None:  # no overlap with the data
+                origin.append((np.nan, np.nan))
+            else:
+                origin.append((slices[0][1].start, slices[0][0].start))
+        return self.cutout_centroid + np.array(origin)
 
     @lazyproperty
     def _xcentroid(self):
